@@ -96,6 +96,16 @@ let () =
     while true do
       let line = input_line stdin in
       (try
+         if String.length line > 4 && String.sub line 0 4 = "cmp " then begin
+           (* priority grid: `cmp <p1> <p2>` prints MergePriority::cmp as the model sees it, twice:
+              on source priorities and on their canonical forms (must coincide, lemma pnorm_cmp) *)
+           match parse ("(" ^ String.sub line 4 (String.length line - 4) ^ ")") with
+           | L [a; b] ->
+               let pa = prio_of a and pb = prio_of b in
+               let show = function Eq -> "Eq" | Lt -> "Lt" | Gt -> "Gt" in
+               print_string (show (pcmp_src pa pb) ^ " " ^ show (pcmp (pnorm pa) (pnorm pb)))
+           | _ -> print_string "BAD cmp"
+         end else
          let e = expr_of (parse line) in
          let d = elab e in
          let wfok = wf d in
